@@ -881,6 +881,88 @@ class take_lists:
                         yield {"n": n, "chunks": ch, "index": idx, "form": form}
 
 
+@contract("dask_array/_chunk.py::slice_with_int_dask_array_aggregate", spec="int-dask-index", props=["C12"])
+class int_dask_index:
+    """x[idx] with idx an integer *dask* array returns what NumPy returns, and raises IndexError (at the latest when
+    computed) as soon as any entry is out of bounds -- also when other entries are in bounds"""
+    bounded_only = True
+    params = {"n": "const", "chunks": "const", "index": "const", "ichunks": "const"}
+    scope = "1-D arrays of length 4 and 6, all index vectors of length <= 3 over [-n-1, n], several layouts of x and of the index"
+    raises = {"IndexError": lambda n, chunks, index, ichunks: any(i >= n or i < -n for i in index)}
+
+    def real():
+        return lambda x, idx: x[idx]
+
+    def call(fn, n, chunks, index, ichunks):
+        import numpy as np
+        import dask_array as da
+        d = np.arange(n) * 10 + 1
+        x = da.from_array(d, chunks=(chunks,))
+        idx = da.from_array(np.array(index, dtype="i8"), chunks=ichunks)
+        got = np.asarray(fn(x, idx).compute())
+        inb = all(-n <= i < n for i in index)
+        return got, (d[list(index)] if inb else None)
+
+    def requires(n, chunks, index, ichunks):
+        return len(index) > 0
+
+    def ensures(result, n, chunks, index, ichunks):
+        got, want = result
+        if want is None:
+            return {"out-of-bounds-entry-raises": False}
+        return {"values-equal-numpy": _same(got, want)}
+
+    def domain(tier, rng):
+        import itertools
+        for n, layouts in ((4, [(2, 2), (4,), (1, 3)]), (6, [(3, 3), (2, 2, 2)])):
+            vals = list(range(-n - 1, n + 1))
+            for ch in layouts:
+                for k in (1, 2, 3):
+                    combos = list(itertools.product(vals, repeat=k))
+                    if tier == "quick" and len(combos) > 150:
+                        combos = rng.sample(combos, 150)
+                    for idx in combos:
+                        for ich in ((k,), (1,) * k) if k > 1 else ((1,),):
+                            yield {"n": n, "chunks": ch, "index": idx, "ichunks": (ich,)}
+        yield {"n": 4, "chunks": (2, 2), "index": (0, 4), "ichunks": ((2,),)}
+        yield {"n": 4, "chunks": (2, 2), "index": (1, -5, 2), "ichunks": ((3,),)}
+
+
+@contract("dask_array/slicing/_utils.py::sanitize_index", spec="float-arrays", props=["C12"])
+class float_index_arrays:
+    """index arrays of floats: integer-valued ones select like their integer cast (accepted by design), anything else is
+    an unsupported index and raises IndexError -- however large the values are"""
+    bounded_only = True
+    params = {"n": "const", "values": "const"}
+    scope = "1-D arrays of length 10 and 200001 (chunked), float index vectors around small and large positions with fractional parts 0, 1e-9, 1e-4, 0.4, 0.5"
+    raises = {"IndexError": lambda n, values: any(float(v) != int(v) and abs(v - round(v)) > 1e-8 for v in values)}
+
+    def real():
+        return lambda x, idx: x[idx]
+
+    def call(fn, n, values):
+        import numpy as np
+        import dask_array as da
+        x = da.arange(n, chunks=max(1, n // 4))
+        got = np.asarray(fn(x, np.array(values, dtype="f8")).compute())
+        return got, np.array([int(round(v)) for v in values])
+
+    def requires(n, values):
+        return all(0 <= v < n - 1 for v in values)
+
+    def ensures(result, n, values):
+        got, want = result
+        return {"integer-valued-floats-select-like-ints": _same(got, want)}
+
+    def domain(tier, rng):
+        for n, bases in ((10, [0, 3, 8]), (200001, [0, 7, 1000, 100000, 199999])):
+            for b in bases:
+                for frac in (0.0, 1e-9, 1e-4, 0.4, 0.5, -0.4):
+                    if b + frac >= 0:
+                        yield {"n": n, "values": (b + frac,)}
+                        yield {"n": n, "values": (1.0, b + frac)}
+
+
 # ---------------------------------------------------------------------------
 # C14: rechunk
 # ---------------------------------------------------------------------------
@@ -1021,18 +1103,20 @@ class reductions_numpy:
                 return None
             dfun = lambda a, **k: da.average(a, weights=da.from_array(w, chunks=chunks[1]), **k)
             nfun = lambda a, **k: np.average(a, weights=w, **k)
-        elif func in ("topk", "argtopk"):
+        elif func.startswith(("topk", "argtopk")):
             if axis not in (0, 1) or keepdims:
                 return None
             kw = {"axis": axis}
+            base = "argtopk" if func.startswith("argtopk") else "topk"
+            kk = int(func[len(base):] or 2)       # "topk" -> 2; "topk6": k at least the axis length (4 or 6)
             dd = d + np.arange(24.0).reshape(4, 6) / 100.0  # distinct values: the order of ties is unspecified
             x = da.from_array(dd, chunks=chunks)
             d = dd
-            dfun = lambda a, **k: getattr(da, func)(a, 2, **k)
-            if func == "topk":
-                nfun = lambda a, axis: np.flip(np.sort(a, axis=axis), axis=axis).take(range(2), axis=axis)
+            dfun = lambda a, **k: getattr(da, base)(a, kk, **k)
+            if base == "topk":
+                nfun = lambda a, axis: np.flip(np.sort(a, axis=axis), axis=axis).take(range(min(kk, a.shape[axis])), axis=axis)
             else:
-                nfun = lambda a, axis: np.flip(np.argsort(a, axis=axis), axis=axis).take(range(2), axis=axis)
+                nfun = lambda a, axis: np.flip(np.argsort(a, axis=axis), axis=axis).take(range(min(kk, a.shape[axis])), axis=axis)
         else:
             dfun = getattr(da, func)
             nfun = getattr(np, func)
@@ -1058,7 +1142,7 @@ class reductions_numpy:
     def domain(tier, rng):
         funcs = ["sum", "prod", "min", "max", "any", "all", "mean", "var", "std", "nansum", "nanmean", "nanmax", "nanmin", "nanvar",
                  "nanprod", "argmin", "argmax", "nanargmax", "nanargmin", "nanstd", "moment3", "moment4", "moment5", "ptp",
-                 "count_nonzero", "average", "topk", "argtopk"]
+                 "count_nonzero", "average", "topk", "argtopk", "topk6", "argtopk6", "argtopk4"]
         layouts = [((4,), (6,)), ((2, 2), (3, 3)), ((1, 1, 1, 1), (1,) * 6), ((3, 1), (1, 5)), ((1, 3), (2, 2, 2))]
         axes = [None, 0, 1, (0, 1)]
         ses = [None, 2, 3, {0: 2, 1: 3}]
@@ -1067,7 +1151,8 @@ class reductions_numpy:
         if tier == "quick":
             nan_arg = [c for c in combos if c[0] in ("nanargmax", "nanargmin") and c[4] is None and not c[3]]
             deep = [c for c in combos if c[0].startswith("moment") and c[4] == 2 and not c[3] and c[2] in (None, 0)]
-            combos = rng.sample(combos, 700) + nan_arg + deep
+            bigk = [c for c in combos if c[0] in ("topk6", "argtopk6", "argtopk4") and c[2] in (0, 1) and not c[3] and c[4] in (None, 2)]
+            combos = rng.sample(combos, 700) + nan_arg + deep + bigk
         for f, l, a, k, s, p in combos:
             yield {"func": f, "chunks": l, "axis": a, "keepdims": k, "split_every": s, "nanpat": p}
 
@@ -1655,10 +1740,14 @@ class vindex_points:
         got, d = result
         nidx = tuple(np.asarray(i) if isinstance(i, list) else i for i in idx) if isinstance(idx, tuple) else np.asarray(idx)
         want = d[nidx]
-        mixed = isinstance(idx, tuple) and any(isinstance(i, slice) for i in idx) and isinstance(idx[0], slice)
+        mixed = isinstance(idx, tuple) and any(isinstance(i, slice) for i in idx)
         if mixed:
-            # vindex documents that the point dimension comes first
-            want = np.moveaxis(want, -1, 0)
+            # vindex documents that the point dimension comes first, then the sliced axes in order
+            lists = [k for k, i in enumerate(idx) if isinstance(i, list)]
+            n = d.shape
+            full = np.ix_(*[np.arange(m) for m in n])
+            npts = len(idx[lists[0]])
+            want = np.stack([d[tuple(idx[k][p] if k in lists else slice(None) for k in range(len(idx)))] for p in range(npts)])
         return {"values-equal-numpy": _same(got, want)}
 
     def domain(tier, rng):
@@ -1673,6 +1762,17 @@ class vindex_points:
             yield {"shape": (7, 8), "chunks": ch, "idx": ([1, 5], slice(None))}
             yield {"shape": (7, 8), "chunks": ch, "idx": (slice(None), [0, 8])}
             yield {"shape": (7, 8), "chunks": ch, "idx": (slice(None), [0, 7])}
+        # rank 3 with two point axes behind a slice axis, and blocks wider than 255 / 65535 elements: in-block point
+        # offsets that do not fit a byte (or two) must survive whatever narrow integer type the layer picks
+        for shape, ch in [((3, 4, 600), ((3,), (2, 2), (300, 300))), ((2, 3, 600), ((1, 1), (3,), (600,))),
+                          ((2, 2, 70000), ((2,), (1, 1), (70000,)))]:
+            last = shape[2]
+            pts = [10, last - 20, 299, 257, last - 1][: 4]
+            rows = [0, shape[1] - 1, 1, 0]
+            yield {"shape": shape, "chunks": ch, "idx": (slice(None), rows, pts)}
+            yield {"shape": shape, "chunks": ch, "idx": (slice(None), rows, [min(last - 1, 66000), 300, 256, 255])}
+            yield {"shape": shape, "chunks": ch, "idx": ([0, 1, 0, 1], slice(None), pts)}
+            yield {"shape": shape, "chunks": ch, "idx": ([0, 1, 0, 1], rows, pts)}
 
 
 def _vindex_oob(shape, idx):
